@@ -88,13 +88,57 @@ def rule_track(ctx):
     prog = ctx.prog
     m = prog.module(GT)
     # R2
-    pi = m.func('GroundTrack.Point.__post_init__')
-    sts = [st for t, st, how in stores_to(pi.node) if norm(t) == 'self.azimuth']
-    ok = len(sts) == 1 and (norm(sts[0].value) in ('self.azimuth % 360.0', 'self.azimuth % 360') or
-                            (isinstance(sts[0], ast.AugAssign) and isinstance(sts[0].op, ast.Mod)
-                             and norm(sts[0].value) in ('360.0', '360')))
-    ctx.ob('C15-R2', pi, 'azimuth normalised to [0, 360)', ok,
-           norm(sts[0]) if ok else 'Point no longer normalises azimuths with % 360', nontrivial=True)
+    pi = m.functions.get('GroundTrack.Point.__post_init__')
+    ctor_normalises = False
+    if pi is not None:
+        sts = [st for t, st, how in stores_to(pi.node) if norm(t) == 'self.azimuth']
+        ctor_normalises = len(sts) == 1 and (norm(sts[0].value) in ('self.azimuth % 360.0', 'self.azimuth % 360') or
+                                             (isinstance(sts[0], ast.AugAssign) and isinstance(sts[0].op, ast.Mod)
+                                              and norm(sts[0].value) in ('360.0', '360')))
+        ctx.ob('C15-R2', pi, 'azimuth normalised to [0, 360)', ctor_normalises,
+               norm(sts[0]) if ctor_normalises else 'Point no longer normalises azimuths with % 360', nontrivial=True)
+    if not ctor_normalises:
+        # the other sound design: every place that builds a Point passes an azimuth that is already normalised
+        def normalised(fi, e, depth=0):
+            if isinstance(e, ast.BinOp) and isinstance(e.op, ast.Mod) and norm(e.right) in ('360', '360.0'):
+                return True
+            if isinstance(e, ast.Call):
+                from ..resolve import resolve_call
+                h = resolve_call(prog, fi, e)
+                if h is not None:
+                    rets = [r.value for r in walk_no_nested(h.node) if isinstance(r, ast.Return) and r.value is not None]
+                    return bool(rets) and all(normalised(h, r, depth + 1) for r in rets)
+                if call_name(e) == 'float' and e.args:
+                    return normalised(fi, e.args[0], depth + 1)
+            if isinstance(e, ast.Subscript) and norm(e.value).startswith('self.'):
+                attr = norm(e.value)
+                defs = [st for f2 in m.functions.values() for t, st, how in stores_to(f2.node) if norm(t) == attr]
+                ok_ = bool(defs)
+                for d in defs:
+                    v = getattr(d, 'value', None)
+                    if isinstance(v, (ast.ListComp, ast.GeneratorExp)):
+                        ok_ = ok_ and normalised(fi, v.elt, depth + 1)
+                    elif v is not None and isinstance(v, ast.BinOp):
+                        ok_ = ok_ and normalised(fi, v, depth + 1)
+                    else:
+                        ok_ = False
+                return ok_
+            if isinstance(e, ast.Name) and depth < 4:
+                defs = [st for t, st, how in stores_to(fi.node) if isinstance(t, ast.Name) and t.id == e.id]
+                return bool(defs) and all(getattr(d, 'value', None) is not None and normalised(fi, d.value, depth + 1) for d in defs)
+            return False
+        nsites = 0
+        for fi in m.functions.values():
+            for c in calls_in(fi.node):
+                if call_name(c) in ('GroundTrack.Point', 'self.Point', 'Point') and (len(c.args) >= 2 or any(k.arg == 'azimuth' for k in c.keywords)):
+                    az = c.args[1] if len(c.args) >= 2 else next(k.value for k in c.keywords if k.arg == 'azimuth')
+                    nsites += 1
+                    ok = normalised(fi, az)
+                    ctx.ob('C15-R2', fi, f'Point(…, {norm(az)[:40]}) receives a normalised azimuth', ok,
+                           'reduced modulo 360 before the point is built' if ok else
+                           ('the point constructor does not normalise, and this site passes the raw geodesic azimuth '
+                            '(−180, 180]: points built here can report a negative azimuth'), line=c.lineno)
+        ctx.floor('C15-R2/sites', nsites, 3, 'Point construction sites')
     for qn in ('GroundTrack.location', 'GroundTrack._overstep', 'GroundTrack.__getitem__', 'GroundTrack.step'):
         fi = m.func(qn)
         for r in [n for n in walk_no_nested(fi.node) if isinstance(n, ast.Return) and n.value is not None]:
@@ -107,7 +151,7 @@ def rule_track(ctx):
                    nontrivial=False)
     for fi in m.functions.values():
         for t, st, how in stores_to(fi.node):
-            if isinstance(t, ast.Attribute) and t.attr == 'azimuth' and fi.qualname != pi.qualname:
+            if isinstance(t, ast.Attribute) and t.attr == 'azimuth' and (pi is None or fi.qualname != pi.qualname):
                 ctx.ob('C15-R2', fi, norm(st), False, 'azimuth overwritten outside the normalising constructor',
                        line=st.lineno)
 
@@ -269,6 +313,22 @@ def rule_track(ctx):
         ok = ok and len(tg) == 3 and tg[0] == 'self.azimuths' and tg[2] == 'distances'
     ctx.ob('C15-R6', ini, 'legs are consecutive waypoint pairs; azimuth=[0], distance=[2]', ok,
            norm(stmt_of(invs[0]))[:110] if ok else 'leg construction changed (pairing or result components)')
+    # the stored waypoints and the coordinates the legs are computed from are one and the same sequence
+    wps = [st for t, st, how in stores_to(ini.node) if norm(t) == 'self.waypoints']
+    srcs = {}
+    for nm in ('lons', 'lats'):
+        d = [st.value for t, st, how in stores_to(ini.node) if isinstance(t, ast.Name) and t.id == nm]
+        if len(d) == 1 and isinstance(d[0], ast.ListComp) and len(d[0].generators) == 1 and not d[0].generators[0].ifs:
+            srcs[nm] = norm(d[0].generators[0].iter)
+    if len(wps) != 1 or len(srcs) != 2:
+        ctx.undecided('C15-R6', ini, 'self.waypoints / lons / lats', 'waypoint bookkeeping of the constructor not recognised')
+    wsrc = norm(wps[0].value)
+    ok = all(s_ in (wsrc, 'self.waypoints') for s_ in srcs.values())
+    ctx.ob('C15-R6', ini, f'self.waypoints = {wsrc[:50]}; coordinates from {sorted(set(srcs.values()))}', ok,
+           'legs, cumulative index and stored waypoints describe the same list' if ok else
+           (f'the track stores `{wsrc[:60]}` but computes leg azimuths and the cumulative index from `{sorted(set(srcs.values()))[0]}`: '
+            'when the two differ (repeated fixes removed, points filtered) location() projects from the wrong waypoint and '
+            'step(a, b) is no longer location(a + b)'), line=wps[0].lineno)
     idx = [st for t, st, how in stores_to(ini.node) if norm(t) == 'self.index']
     ok = len(idx) == 1 and norm(idx[0].value) == 'list(itertools.accumulate([0.0] + distances))'
     ctx.ob('C15-R6', ini, 'cumulative index = running sum of leg lengths from 0', ok,
